@@ -62,3 +62,16 @@ pub fn abs(x: usize) -> u64 {
         1_900_000_000 + (x % 1000) as u64
     }
 }
+
+/// Mode names are concretised too: the specification's plain names ("M0", "INITIAL", ...) are given
+/// to the library with characters that need escaping in DOT files, JSON and debug output (quote,
+/// backslash, a 2-byte character); what `mode_name` reports is mapped back by stripping exactly that
+/// suffix - a name that comes back escaped, truncated or re-encoded stays unlike anything the
+/// specification admits.
+const NAME_SUFFIX: &str = " \"\\\u{e4}";
+pub fn conc_name(n: &str) -> String {
+    format!("{n}{NAME_SUFFIX}")
+}
+pub fn abs_name(n: &str) -> String {
+    n.strip_suffix(NAME_SUFFIX).map(|s| s.to_string()).unwrap_or_else(|| n.to_string())
+}
